@@ -173,7 +173,7 @@ def run_tlc_to_file(inst, name, workers=8, timeout=1200, simulate=None):
         finally:
             shutil.rmtree(os.path.join(d, "states"), ignore_errors=True)
     # statistics are in the non-REPLAY lines
-    tail = subprocess.run("grep -v '^<<\"REPLAY\"' %s | tail -60" % outp, shell=True, capture_output=True, text=True).stdout
+    tail = subprocess.run("grep -v '^<<\"' %s | tail -60" % outp, shell=True, capture_output=True, text=True).stdout
     r = parse_tlc(tail)
     r["wall_s"] = round(time.time() - t, 1)
     r["tail"] = tail[-2000:]
